@@ -670,6 +670,10 @@ func ruleC08CloseWho(c *Ctx) {
 		for _, in := range AnyCallsTo(fn, fRep+"Close") {
 			n++
 			key := FnName(fn) + " | (*Replica).Close"
+			if _, isGo := in.(*ssa.Go); isGo {
+				c.Bad(rule, key+" | synchronous", c.P.InstrPos(in), "(*Replica).Close is started as a goroutine: its rewrite of volume.meta (from the closed instance's in-memory info) can land after a later operation on the new instance has committed, and names a head that no longer exists", nil)
+				continue
+			}
 			if why, ok := allowed[FnName(fn)]; ok {
 				c.OK(rule, key, c.P.InstrPos(in), "allow-listed: "+why, false)
 			} else if strings.Contains(FnName(fn), "tests/") || strings.HasPrefix(FnName(fn), "app.") || strings.HasPrefix(FnName(fn), "sync.") || strings.HasPrefix(FnName(fn), "(*sync.") {
